@@ -1,5 +1,6 @@
 import SaModel.Lemmas.C01CompSmall
-import SaModel.Props.C01Refine
+import SaModel.Lemmas.C03Total
+import SaModel.Props.C01
 /-
 C01, completeness of the builders with respect to the documented mapping (the converse of R2 `push_interp`).
 
@@ -16,7 +17,7 @@ three record disciplines, dictionary, union) and all serde value kinds, at any n
 * the hypotheses of R2: `WFB`, `Safe`, `Shape`, `noRaw`.
 
 Corollaries: `push_err_iff`, `push_err_sound` (the error-position refinement C18 needs: an error is never spurious),
-`runRows_complete`, `toMarrow_complete_partial`.
+`runRows_complete`, `finish_total`, `toMarrow_complete`, `toMarrow_complete_decode`.
 -/
 namespace SaModel.Props.C01
 open SaModel SaModel.Build SaModel.Spec
@@ -91,21 +92,59 @@ theorem runRows_complete (ext : Ext) (fields : List Field) (rows : List SVal) (r
     (newRoot_shape hc h0) (by simp [total, htot]) hrows hcap
   exact ⟨root, by simp only [runRows, h0]; exact h⟩
 
-/-- `toMarrow` under the same hypotheses: every row is accepted; what remains is `build_arrays`.
-PARTIAL — missing: totality of `finish` (`into_array`) on well-formed states (it can still refuse: the `""` value a
-non-nullable empty dictionary appends, union type ids beyond `i8`), so the conclusion stops at `buildArrays`. -/
-theorem toMarrow_complete_partial (ext : Ext) (fields : List Field) (rows : List SVal) (root0 : B)
+/-- **`into_array` never fails on a well-formed state** (`Lemmas/C03Total.lean`): its only failure sites are checked
+conversions — `n: usize → i32` of the fixed-size builders, the variant index `usize → i8` of a union, and the
+placeholder value `""` a non-nullable dictionary appends when it holds keys but no value.  `FinB b` says that none of them
+can fire: sizes ≤ `i32::MAX`, at most 128 variants, dictionary keys stored by an integer leaf builder (then the strict
+key clause of `WFB` makes the placeholder branch unreachable).  `FinB` only depends on the shape (`FinB_takeRest`) and
+holds of every builder `build_builder` creates for a well-typed data type (`FinB_of_builtFor`, `typedDT`). -/
+theorem finish_total (ext : Ext) (b : B) (hw : WFB b) (hf : Lemmas.C03.FinB b) : ∃ a, finish ext b = .ok a :=
+  Lemmas.C03.finish_total ext b hw hf
+
+/-- the shape condition from the schema: every builder `build_builder` creates for a data type whose sizes are `i32`
+values and whose union type ids are `i8` values (true of every marrow `DataType` by type) is `FinB` -/
+theorem FinB_of_builtFor (b : B) (dt : DataType) (nl : Bool) (hb : Lemmas.C03.BuiltFor dt nl b)
+    (ht : Lemmas.C03.typedDT dt = true) : Lemmas.C03.FinB b :=
+  Lemmas.C03.FinB_of_builtFor b dt nl hb ht
+
+/-- **`to_marrow` is complete**: if every record is representable under the root schema (`interpRow` is defined) and the
+records fit into the fresh root's head room, `to_marrow` succeeds — every row is accepted (`runRows_complete`) and
+`build_arrays` cannot fail (`finish_total`).  `htyped` is the typing invariant of `DataType` (sizes are `i32`, union
+type ids `i8` values; the model's `DataType` carries unbounded integers). -/
+theorem toMarrow_complete (ext : Ext) (fields : List Field) (rows : List SVal) (root0 : B)
     (hc : fields.all coveredF = true) (h0 : newRoot fields = .ok root0) (hsafe : Safe root0)
     (htot : totalFs (Fields.ofList fields) = true)
+    (htyped : Lemmas.C03.typedFs (Fields.ofList fields) = true)
+    (hrows : ∀ r ∈ rows, noRaw r = true ∧ ∃ lv, interpRow ext fields r = .ok lv)
+    (hcap : (rows.map (vsize ext)).sum ≤ room root0) : ∃ arrs, toMarrow ext fields rows = .ok arrs := by
+  obtain ⟨root, hrun⟩ := runRows_complete ext fields rows root0 hc h0 hsafe htot hrows hcap
+  have hraw : ∀ x ∈ rows, noRaw x = true := fun x hx => (hrows x hx).1
+  obtain ⟨hw, _, _, _⟩ := runRows_rows ext fields rows root0 root h0 hsafe hrun
+  have hb := Lemmas.C03.runRows_builtFor ext fields rows root (Build.push_takeRest ext) hrun
+  have hf := Lemmas.C03.FinB_of_builtFor root _ _ hb (by simpa [Lemmas.C03.typedDT] using htyped)
+  obtain ⟨_, _, p, fs, cached, next, seen, hroot, _⟩ := runRows_interp ext fields rows root0 root hc h0 hsafe hraw hrun
+  obtain ⟨⟨arrs, rest⟩, hba⟩ := Lemmas.C03.buildArrays_total ext root hw hf ⟨_, _, _, _, _, _, _, hroot⟩
+  refine ⟨arrs, ?_⟩
+  rw [Props.C03.toMarrow_eq, hrun]
+  simp only [bind, Except.bind, hba, pure, Except.pure]
+
+/-- … and then the arrays are what C01 says: they decode to exactly `interpRow` of the records (`C01_build_decode`) -/
+theorem toMarrow_complete_decode (ext : Ext) (fields : List Field) (rows : List SVal) (root0 : B)
+    (hschema : ∀ f ∈ fields, Lemmas.C03.SchemaOKF f)
+    (hc : fields.all coveredF = true) (h0 : newRoot fields = .ok root0) (hsafe : Safe root0)
+    (htot : totalFs (Fields.ofList fields) = true)
+    (htyped : Lemmas.C03.typedFs (Fields.ofList fields) = true)
     (hrows : ∀ r ∈ rows, noRaw r = true ∧ ∃ lv, interpRow ext fields r = .ok lv)
     (hcap : (rows.map (vsize ext)).sum ≤ room root0) :
-    ∃ root, runRows ext fields rows = .ok root ∧
-      toMarrow ext fields rows = (do let (arrs, _) ← buildArrays ext root; pure arrs) := by
-  obtain ⟨root, h⟩ := runRows_complete ext fields rows root0 hc h0 hsafe htot hrows hcap
-  refine ⟨root, h, ?_⟩
-  simp only [runRows, h0] at h
-  have h : rows.foldlM (push ext) root0 = .ok root := h
-  simp only [toMarrow, h0, h, bind, Except.bind]
+    ∃ arrs, toMarrow ext fields rows = .ok arrs ∧ arrs.length = fields.length ∧
+      ∃ cols : List (String × List LVal),
+        arrs.map decodeAll = cols.map (fun c => c.2.map .ok) ∧ cols.map (·.1) = fields.map (·.name) ∧
+        (∀ c ∈ cols, c.2.length = rows.length) ∧
+        ∀ (i : Nat) (hi : i < rows.length),
+          interpRow ext fields rows[i] = .ok (.struct (LFields.ofList (cols.map fun c => (c.1, c.2.getD i .null)))) := by
+  obtain ⟨arrs, h⟩ := toMarrow_complete ext fields rows root0 hc h0 hsafe htot htyped hrows hcap
+  exact ⟨arrs, h, C01_build_decode ext fields rows arrs hschema hc
+    (fun r hr => by rw [h0] at hr; cases hr; exact hsafe) (fun x hx => (hrows x hx).1) h⟩
 
 /-! ### non-vacuity -/
 
@@ -131,6 +170,39 @@ example : [Field.mk "a" .int32 false [], Field.mk "b" .utf8 true []].all covered
     (interpRow {} [.mk "a" .int32 false [], .mk "b" .utf8 true []]
       (.record "R" (.cons "b" 1 .none (.cons "a" 0 (.int .i32 2) .nil)))).isOk = true :=
   ⟨by decide, by decide, by decide +kernel⟩
+
+theorem ok_of_isOk {α} {r : R α} (h : r.isOk = true) : ∃ v, r = .ok v := by
+  cases r with
+  | ok v => exact ⟨v, rfl⟩
+  | error e => cases h
+
+/-- `toMarrow_complete`: every hypothesis discharged on the two-column schema with two records in two presentations;
+`to_marrow` succeeds by the theorem -/
+example : ∃ arrs, toMarrow {} [Field.mk "a" .int32 false [], Field.mk "b" .utf8 true []]
+    [.record "R" (.cons "b" 1 .none (.cons "a" 0 (.int .i32 2) .nil)),
+     .map (.cons (.str "a") (.int .u8 7) (.cons (.str "b") (.str "x") .nil))] = .ok arrs :=
+  toMarrow_complete {} _ _ _ (by decide) (show newRoot _ = .ok (.struct "$" 0 none
+      (.cons (.leaf "$.a" (.int .i32) none []) ⟨"a", false, []⟩
+        (.cons (.bytes "$.b" .utf8 (some []) [0] []) ⟨"b", true, []⟩ .nil)) [none, none] 0 [false, false]) from by decide)
+    (by simp [Safe, SafeL]) (by decide) (by decide)
+    (by
+      intro r hr
+      simp only [List.mem_cons, List.not_mem_nil, or_false] at hr
+      rcases hr with rfl | rfl
+      · exact ⟨by decide, ok_of_isOk (by decide +kernel)⟩
+      · exact ⟨by decide, ok_of_isOk (by decide +kernel)⟩)
+    (by decide +kernel)
+
+/-- non-vacuity of `finish_total` beyond leaves: a non-nullable `Dictionary(UInt8, Utf8)` builder holding the keys
+`[0, 0]` and one value is `WFB` and `FinB`; `into_array` takes the ordinary branch -/
+example : Lemmas.C03.FinB exDict ∧ (finish {} exDict).isOk = true := ⟨by simp [exDict, Lemmas.C03.FinB, Lemmas.C03.isIntLeaf], by decide +kernel⟩
+
+/-- `typedDT` is what excludes the model-only failure of `into_array`: a `FixedSizeBinary(2^31)` builder (no marrow
+`DataType` has that size) is well formed, but `into_array` refuses the conversion to `i32` -/
+example : WFB (.fixedSizeBinary "$.a" 2147483648 0 none [] 0) ∧
+    (finish {} (.fixedSizeBinary "$.a" 2147483648 0 none [] 0)).isOk = false ∧
+    Lemmas.C03.typedDT (.fixedSizeBinary 2147483648) = false :=
+  ⟨by simp [WFB, VLen], by decide, by decide⟩
 
 /-! ### the non-capacity exclusion is needed (finding) -/
 
